@@ -33,6 +33,10 @@ CHECKS = {
             "Valid prefix x valid suffix x exactly one fault from the complete menu (undefined name in every syntactic slot incl. metadata options, reserved names in every declaration form, non-integer modes of every value kind, literal and computed complex values into int/float scalars, arrays and loops, wrong-type loop values, mismatched include calls): loading must raise, and for undefined/reserved names raise BlackbirdSyntaxError with identifier, line and column.",
             "Exception type constrained only where the property names it; column accepted 0- or 1-based.",
             "DESIGN.md section 5 C11"),
+    "C07": ("exploration", "bounded-exhaustive enumeration of included programs x call-site patterns x directory layouts x working directories vs model inlining",
+            "Every included program over every 1-/2-/3-subset of an 8-mode universe in every order of first use with 0-2 parameters x every call-site pattern; every combination of 6 directory layouts x duplicate-include variants x 4 process working directories x 2 load-argument styles; nesting depth 1-3 with the inner subroutine also called directly before/after the outer one. Each is loaded through blackbird.load from real files and compared with the reference model's inlining. Complete for the stated menus.",
+            "Trusted: reference model inlining (sorted(sub.modes)[k] -> call modes[k]). Register references inside included programs and positional arguments of include calls are not generated.",
+            "DESIGN.md section 5 C07"),
     # id: (category, technique, text, note, design_ref)
     "C02": ("exploration", "bounded-exhaustive enumeration of script prefixes (BFS over item sequences) vs reference denotation",
             "Every item sequence over the statement menu up to the stated depth is rendered, loaded by the real parser/evaluator and compared with an independently written reference denotation; complete for the stated alphabet and depth, nothing beyond.",
